@@ -381,17 +381,25 @@ func (x *c16Exec) fail(key, format string, a ...any) {
 	panic(c16Stop{verifkit.Fail(key, format, a...)})
 }
 
-// checkDoubleRecovery: every KickedFromServerEvent after the first of a chain is
-// the consequence of a new attempt and therefore preceded by that attempt's
-// ServerPreConnectEvent; two kicked events for the same server with nothing in
-// between mean that two goroutines ran the recovery for one failure at once.
+// checkDoubleRecovery: a KickedFromServerEvent for server X reports the failure of
+// one attempt to X (or of the established connection to X). A second one for X
+// needs a new attempt to X, which fires ServerPreConnectEvent for X first; two
+// kicked events for X without that in between mean two goroutines ran the
+// recovery for a single failure.
 func (x *c16Exec) checkDoubleRecovery() {
 	x.rig.mu.Lock()
 	ev := append([]c15Event(nil), x.rig.events...)
 	x.rig.mu.Unlock()
-	for i := 1; i < len(ev); i++ {
-		if ev[i].Kind == "kicked" && ev[i-1].Kind == "kicked" && ev[i].Server == ev[i-1].Server {
-			x.fail("recovery:ran-twice-concurrently", "the proxy handled one backend failure of %s twice at the same time (two KickedFromServerEvents with no attempt in between; the second recovery's request then interferes with the first); %s", ev[i].Server, x.describe())
+	kickedSince := map[string]bool{}
+	for _, e := range ev {
+		switch e.Kind {
+		case "preconnect":
+			delete(kickedSince, e.Server)
+		case "kicked":
+			if kickedSince[e.Server] {
+				x.fail("recovery:ran-twice-concurrently", "the proxy ran its recovery twice for one failure of %s (two KickedFromServerEvents without a new attempt to it in between; the second recovery's request interferes with the first one's attempt); %s", e.Server, x.describe())
+			}
+			kickedSince[e.Server] = true
 		}
 	}
 }
